@@ -103,6 +103,16 @@ func firstDiff(a, b string) string {
 	}
 }
 
+func sortedTranscript(path string) string {
+	b, err := os.ReadFile(path)
+	if err != nil {
+		return "unreadable:" + path
+	}
+	l := strings.Split(string(b), "\n")
+	sort.Strings(l)
+	return strings.Join(l, "\n")
+}
+
 func clip(s string) string {
 	if len(s) > 160 {
 		return s[:160] + "..."
@@ -172,8 +182,8 @@ func main() {
 				}
 			}
 			sort.Strings(bl)
-			if len(bl) > 40 {
-				bl = bl[:40]
+			if len(bl) > 6 {
+				bl = bl[:6] // localising the first differing observation is a convenience: the digests decide
 			}
 			vout := map[int]string{}
 			unstable := map[string]bool{}
@@ -189,12 +199,17 @@ func main() {
 						// identical runs of one binary under one configuration disagree, what the library computed is
 						// not a function of its inputs (typically a kernel reading memory it was not given). A third
 						// run separates that from a one-off disturbance of the harness.
-						o3, _ := runOne(r, d, cfgs[i], "")
+						o3, out3 := runOne(r, d, cfgs[i], g)
 						if o3[g] == o2[g] && o3[g] == res[i][g] {
 							continue
 						}
-						if o3[g] == o2[g] || o3[g] == res[i][g] {
-							// two of three agree: still two different results for the same input
+						// the same multiset of observations in another order is a defect of the driver (e.g. iteration over
+						// a map), not of the library: compare the sorted transcripts of two more runs
+						t3 := sortedTranscript(out3 + ".verbose." + vlib.Sanitize(g))
+						_, out4 := runOne(r, d, cfgs[i], g)
+						t4 := sortedTranscript(out4 + ".verbose." + vlib.Sanitize(g))
+						if t3 == t4 {
+							r.Harness(fmt.Sprintf("driver %s group %s under %s: the observations are the same but their order differs between runs", d, g, cfgs[i].name))
 						}
 						unstable[g] = true
 						r.FailIn(dg, fmt.Sprintf("cfg/%s/%s/%s-not-a-function-of-the-input", d, g, cfgs[i].name), g+"/"+cfgs[i].name,
@@ -208,7 +223,7 @@ func main() {
 					continue
 				}
 				for _, i := range is {
-					where := "not localised (more than 40 differing groups)"
+					where := "not localised (more than 6 differing groups)"
 					if _, err := os.Stat(vout[0] + ".verbose." + vlib.Sanitize(g)); err == nil {
 						where = firstDiff(vout[0]+".verbose."+vlib.Sanitize(g), vout[i]+".verbose."+vlib.Sanitize(g))
 					}
